@@ -1,7 +1,10 @@
 import LettreVerif.Props.C07
 #print axioms LV.C07.commits_equal_successes
+#print axioms LV.C07.each_message_exactly_once
+#print axioms LV.C07.results_are_indexed_by_message
 #print axioms LV.C07.one_place_at_a_time
 #print axioms LV.C07.transaction_commits_iff_ok
 #print axioms LV.C07.failed_transaction_closes
+#print axioms LV.C07.transaction_is_whole
 #print axioms LV.C07.broken_connection_not_returned
 #print axioms LV.C07.ids_valid
